@@ -67,11 +67,38 @@ func init() {
 			"the race detector and ASan see only executed accesses on the Go heap / data segments; the rodata write trap sees any store into corpus memory"},
 		Flavours: func(tier string) []string {
 			if tier == "thorough" {
-				return []string{"release", "race", "race#2", "race#3", "noopt", "nooptl", "asan", "go126"}
+				return []string{"release", "release#order", "race", "race#2", "race#3", "noopt", "nooptl", "asan", "go126"}
 			}
-			return []string{"release", "race", "race#2", "noopt"}
+			return []string{"release", "release#order", "race", "race#2", "noopt"}
 		},
 		Required: req,
+		// "its result depends only on its arguments": the calls of the cold phase of the release process, made again by a
+		// fresh process sequentially and in REVERSE order, must give the same results call by call (a memo filled by
+		// whichever call comes first - a truncated enumeration remembered as the complete one was seeded in round 11 -
+		// gives two different answers to the same call in two processes that differ only in the order of their calls)
+		Merge: func(tier string, rs map[string]*mon.Result) []mon.Violation {
+			rel, ord := rs["release"], rs["release#order"]
+			if rel == nil || ord == nil || !rel.Complete || !ord.Complete || len(rel.Violations) > 0 || len(ord.Violations) > 0 {
+				return nil
+			}
+			var out []mon.Violation
+			for _, n := range c19FnNames {
+				if n == c19FnNames[fSharedSigCountPrefixes] {
+					continue // needs objects built in the warm-up: not part of the cold phase
+				}
+				a, b := rel.Extra["orderdigest/"+n], ord.Extra["orderdigest/"+n]
+				ca, cb := rel.Extra["ordercalls/"+n], ord.Extra["ordercalls/"+n]
+				if ca != cb {
+					out = append(out, mon.Violation{Sig: "c19/order-process-made-other-calls/" + n, Flavour: "release#order", Detail: []byte(fmt.Sprintf(`{"release_calls":%d,"order_calls":%d}`, ca, cb)), Count: 1, Inconclusive: true})
+					continue
+				}
+				if a != b {
+					out = append(out, mon.Violation{Sig: "result-depends-on-call-order/" + n, Flavour: "release#order", Count: 1,
+						Detail: []byte(fmt.Sprintf(`{"function":%q,"calls":%d,"digest_concurrent_cold_phase":"%016x","digest_same_calls_sequentially_in_reverse_order_in_a_fresh_process":"%016x","what":"the same calls with the same arguments returned different results in two processes that differ only in the order in which the calls were made"}`, n, ca, uint64(a), uint64(b)))})
+				}
+			}
+			return out
+		},
 		Families: func(c *mon.Config) []mon.Family {
 			return []mon.Family{{Name: "process", N: 1, Serial: true, Run: c19Process}}
 		},
@@ -266,12 +293,31 @@ func c19Process(w *mon.W, _ int) {
 		w.Fail("tables/differ-from-definition-after-init", mon.D{"table": bad})
 		return
 	}
+	if w.Cfg.Variant() == "order" {
+		c19OrderProcess(w, cp, pr)
+		return
+	}
 	base := time.Now()
 	w.Op = "phase A (cold concurrent)"
 
 	// ---- phase A: cold concurrent --------------------------------------------------------------
 	wa := c19Concurrent(w, cp, nil, ar, pr, 0, base)
 	w.Bucket("phase/cold-concurrent")
+	if w.Cfg.Flavour == "release" {
+		// per-function digests of (goroutine, call number, result) for the process "release#order", which makes the same
+		// calls sequentially in reverse order as ITS first library calls
+		var dg, cnt [fNFuncs]uint64
+		for g, wk := range wa {
+			for k, rec := range wk.recs {
+				dg[rec.call.fn] += gen.Hash64(uint64(g), uint64(k), rec.hash)
+				cnt[rec.call.fn]++
+			}
+		}
+		for fn := 0; fn < fNFuncs; fn++ {
+			w.Extra("orderdigest/"+c19FnNames[fn], int64(dg[fn]))
+			w.Extra("ordercalls/"+c19FnNames[fn], int64(cnt[fn]))
+		}
+	}
 	if cp.digest() != d0 {
 		w.Fail("corpus/modified-in-cold-phase", mon.D{"what": "a shared argument slice/string changed during the concurrent phase"})
 		return
@@ -597,4 +643,45 @@ func c19DenseSweep(w *mon.W) (int64, int64) {
 type c19Kept struct {
 	s string
 	h uint64
+}
+
+// c19OrderProcess: the variant "release#order". It regenerates the call lists of the cold concurrent phase of the
+// release process (same seed, same PRNG keys, same consumption) and executes them on one goroutine, last call first, as
+// the first library calls of this process. The parent compares the per-function digests (Merge).
+func c19OrderProcess(w *mon.W, cp *c19Corpus, pr c19Params) {
+	d0 := cp.digest()
+	calls := make([][]c19Call, pr.G)
+	for g := 0; g < pr.G; g++ {
+		r := gen.NewRand(w.Cfg.Seed, "C19", "worker/release/0", g)
+		for k := 0; k < pr.N; k++ {
+			calls[g] = append(calls[g], c19Gen(r, cp, false))
+			if k&63 == 0 {
+				r.Intn(4) // the concurrent worker draws its Gosched decision here
+			}
+		}
+	}
+	var dg, cnt [fNFuncs]uint64
+	var ev int64
+	for g := pr.G - 1; g >= 0; g-- {
+		for k := pr.N - 1; k >= 0; k-- {
+			c := calls[g][k]
+			w.Op = "reverse-order process: " + c19FnNames[c.fn]
+			dg[c.fn] += gen.Hash64(uint64(g), uint64(k), c19Exec(cp, nil, c, nil))
+			cnt[c.fn]++
+			ev++
+			if ev&4095 == 0 {
+				w.Tick()
+			}
+		}
+	}
+	for fn := 0; fn < fNFuncs; fn++ {
+		w.Extra("orderdigest/"+c19FnNames[fn], int64(dg[fn]))
+		w.Extra("ordercalls/"+c19FnNames[fn], int64(cnt[fn]))
+	}
+	if cp.digest() != d0 {
+		w.Fail("corpus/modified-in-reverse-order-process", mon.D{})
+		return
+	}
+	w.Eval(ev)
+	w.Bucket("phase/same-calls-in-reverse-order-in-a-fresh-process")
 }
